@@ -1,9 +1,9 @@
 (** C09 – model of the rate / ETA estimator of indicatif (src/state.rs).
 
     ONE generic transcription of [Estimator::{new,record,reset,steps_per_second}]
-    (state.rs:437-538), [ProgressState::{eta,duration,per_sec,elapsed}] (state.rs:297-340),
+    (state.rs:437-545), [ProgressState::{eta,duration,per_sec,elapsed}] (state.rs:297-340),
     the helper functions [estimator_weight], [duration_to_secs], [secs_to_duration]
-    (state.rs:676-689), the position limiter [AtomicPosition::{allow,reset}] (state.rs:557-596,
+    (state.rs:683-696), the position limiter [AtomicPosition::{allow,reset}] (state.rs:564-603,
     it decides which updates reach the estimator) and the [ProgressBar] entry points that feed
     the estimator (progress_bar.rs:231-400), parameterised by the arithmetic [arith]:
 
@@ -34,7 +34,7 @@ Record arith : Type := {
   sub : T -> T -> T;
   mul : T -> T -> T;
   div : T -> T -> T;
-  pow_base : T -> T;        (* [0.1_f64.powf(x)]  (state.rs:678) *)
+  pow_base : T -> T;        (* [0.1_f64.powf(x)]  (state.rs:685) *)
   is_zero : T -> bool;      (* [x == 0.0] *)
   trunc : T -> T;           (* [f64::trunc] *)
   cast : N -> T -> N        (* [x as uNN], saturating float->int cast; first argument = uNN::MAX *)
@@ -70,7 +70,7 @@ Arguments mkEst {F}.
 Arguments sm {F}. Arguments dsm {F}. Arguments prev_steps {F}.
 Arguments prev_time {F}. Arguments start_time {F}.
 
-(** position limiter state, AtomicPosition (state.rs:540-545) without [pos] *)
+(** position limiter state, AtomicPosition (state.rs:547-552) without [pos] *)
 Record lim : Type := mkLim { l_cap : N; l_prev : N; l_start : N }.
 
 (** the bar as far as C09 is concerned *)
@@ -108,15 +108,15 @@ Section Generic.
   Definition fzero : F := of_int A 0.
   Definition fone : F := of_int A 1.
 
-  (** duration_to_secs (state.rs:681-683) and Duration::as_secs_f64 (same formula in std) *)
+  (** duration_to_secs (state.rs:688-690) and Duration::as_secs_f64 (same formula in std) *)
   Definition dur_secs (d : N) : F :=
     add A (of_int A (d / NS_PER_SEC)) (div A (of_int A (d mod NS_PER_SEC)) (of_int A NS_PER_SEC)).
 
-  (** estimator_weight (state.rs:676-679) *)
+  (** estimator_weight (state.rs:683-686) *)
   Definition est_weight (age : F) : F :=
     pow_base A (div A age (of_int A EST_WEIGHTING_SECONDS)).
 
-  (** secs_to_duration (state.rs:685-689) *)
+  (** secs_to_duration (state.rs:692-696) *)
   Definition secs_to_duration (s : F) : option N :=
     let secs := cast A U64MAX (trunc A s) in
     let nanos := cast A U32MAX (mul A (sub A s (trunc A s)) (of_int A NS_PER_SEC)) in
@@ -148,17 +148,30 @@ Section Generic.
       let d' := add A (mul A (dsm e) weight) (mul A normalized (sub A fone weight)) in (* :482-483 *)
       mkEst s' d' new_steps now (start_time e).                            (* :485-486 *)
 
-  (** Estimator::steps_per_second (state.rs:501-537) *)
+  (** Estimator::steps_per_second (state.rs:501-544, with fix 56491a5: no time has passed since
+      the (re)start => 0.0 instead of 0.0 / 0.0) *)
   Definition est_sps (e : est F) (now : N) : F :=
     let delta_t := dur_secs (since now (prev_time e)) in                   (* :506 *)
     let reweight := est_weight delta_t in                                  (* :507 *)
     let delta_t_start := dur_secs (since now (start_time e)) in            (* :528 *)
     let total_weight := sub A fone (est_weight delta_t_start) in           (* :529 *)
-    let sps := div A (mul A (sm e) reweight) total_weight in               (* :534 *)
-    let dsps := add A (mul A (dsm e) reweight) (mul A sps (sub A fone reweight)) in  (* :535 *)
-    div A dsps total_weight.                                               (* :536 *)
+    if is_zero A total_weight then fzero else                              (* :534-536 *)
+    let sps := div A (mul A (sm e) reweight) total_weight in               (* :541 *)
+    let dsps := add A (mul A (dsm e) reweight) (mul A sps (sub A fone reweight)) in  (* :542 *)
+    div A dsps total_weight.                                               (* :543 *)
 
-  (** AtomicPosition::allow (state.rs:557-590); returns the decision and the new limiter *)
+  (** the same function BEFORE fix 56491a5 (kept for the regression statements
+      C09_*_pre_56491a5: it divides by zero at the restart instant) *)
+  Definition est_sps_pre_56491a5 (e : est F) (now : N) : F :=
+    let delta_t := dur_secs (since now (prev_time e)) in
+    let reweight := est_weight delta_t in
+    let delta_t_start := dur_secs (since now (start_time e)) in
+    let total_weight := sub A fone (est_weight delta_t_start) in
+    let sps := div A (mul A (sm e) reweight) total_weight in
+    let dsps := add A (mul A (dsm e) reweight) (mul A sps (sub A fone reweight)) in
+    div A dsps total_weight.
+
+  (** AtomicPosition::allow (state.rs:564-597); returns the decision and the new limiter *)
   Definition lim_allow (now : N) (l : lim) : bool * lim :=
     if now <? l_start l then (false, l) else
     let elapsed := wrap64 (since now (l_start l)) in       (* as_nanos() as u64 *)
@@ -199,7 +212,7 @@ Section Generic.
     end.
 
   (** ProgressBar::with_draw_target(len, hidden) with the clock at [now]
-      (ProgressState::new state.rs:262-274, AtomicPosition::new state.rs:548-555) *)
+      (ProgressState::new state.rs:262-274, AtomicPosition::new state.rs:555-562) *)
   Definition bar_new (len : option N) (now : N) : bar F :=
     mkBar 0 len false now (est_new now) (mkLim AP_MAX_BURST 0 now).
 
@@ -236,7 +249,7 @@ Section Generic.
         mkBar (b_pos b) (b_len b) (b_done b) (b_started b) (bar_reset_est now (b_pos b) (b_est b)) (b_lim b)
     | ResetElapsed =>  (* + started := now (state.rs:86-88) *)
         mkBar (b_pos b) (b_len b) (b_done b) now (bar_reset_est now (b_pos b) (b_est b)) (b_lim b)
-    | ResetAll =>      (* AtomicPosition::reset FIRST (state.rs:75-77, 592-596), then the estimator
+    | ResetAll =>      (* AtomicPosition::reset FIRST (state.rs:75-77, 599-603), then the estimator
                           restarts from position 0; status := InProgress *)
         mkBar 0 (b_len b) false now (bar_reset_est now 0 (b_est b))
               (mkLim (l_cap (b_lim b)) (wrap64 (since now (l_start (b_lim b)))) (l_start (b_lim b)))
@@ -369,7 +382,7 @@ Definition is_reset_op (o : eop) : bool :=
     proofs/EstimatorProofs.v and proofs/EstimatorBarProofs.v) *)
 Local Open Scope R_scope.
 
-(** the weight function W(t) = (1/10)^(t/15), t in seconds (state.rs:676-679 over R) *)
+(** the weight function W(t) = (1/10)^(t/15), t in seconds (state.rs:683-686 over R) *)
 Definition W (t : R) : R := Rpower (1 / 10) (t / 15).
 
 (** seconds of a duration given in nanoseconds *)
@@ -420,7 +433,7 @@ Definition J_nonneg (e : est R) : Prop := 0 <= sm e /\ 0 <= dsm e.
 Definition J_steady (r : R) (e : est R) : Prop := sm e = r * Np e /\ dsm e = r * Np e.
 
 (** steps_per_second over R as a function of the two averages, the stall weight w = W(now -
-    last sample) and the normaliser n = 1 - W(now - restart)  (state.rs:534-536) *)
+    last sample) and the normaliser n = 1 - W(now - restart)  (state.rs:541-543) *)
 Definition sps_R (s d : R) (w n : R) : R := (d * w + s * w / n * (1 - w)) / n.
 
 (** the rate reported x SECONDS (a real number) into a stall, i.e. x seconds after the last
